@@ -8,7 +8,10 @@ import (
 	"strings"
 )
 
+var apixs []string
+
 func captureCases(seed int64, tier string) (encs, apis, parses []string) {
+	apixs = nil
 	ctx := &Ctx{rng: newRand(seed), tier: tier, stats: map[string]int{}}
 	ctx.sink = func(op string, toks []string) {
 		switch op {
@@ -16,6 +19,8 @@ func captureCases(seed int64, tier string) (encs, apis, parses []string) {
 			encs = append(encs, strings.Join(toks, " "))
 		case "api":
 			apis = append(apis, strings.Join(toks, ""))
+		case "apix":
+			apixs = append(apixs, strings.Join(toks, ""))
 		case "parse":
 			parses = append(parses, strings.Join(toks, " "))
 		}
@@ -71,6 +76,10 @@ func init() {
 				c.run("rtrip", a)
 			}
 			_ = i
+		}
+		// late-growth histories: children intact and repeatable (implementation-side oracles)
+		for _, a := range apixs {
+			c.run("embed", a)
 		}
 		for i, e := range encs {
 			if i%3 == 0 || c.thorough() {
